@@ -92,6 +92,13 @@ def load(R):
                ensures=["FS_STATE(self, EFF_PATH(config, path), EFF_META(config, path, metadata_path), EFF_MB(config, memory_cache_mb), EFF_RO(config, read_only))",
                         "self.storage_type == 'filesystem'"],
                modifies=["self.*"])
+    # a backend created from its configuration alone (StorageBackend.create(type, config) passes nothing else): the omitted arguments take the
+    # defaults written in the signature, and the configuration decides every option
+    R.contract(F + "__init__@config-only", prop="C18", inline_callees=INL,
+               types={"self": FSB, "config": OPTCFG},
+               requires=["CFG_TYPED(config)"],
+               ensures=["FS_STATE(self, EFF_PATH(config, None), EFF_META(config, None, None), EFF_MB(config, None), EFF_RO(config, None))"],
+               labels={"use_defaults": ["path", "metadata_path", "memory_cache_mb", "read_only"]}, modifies=["self.*"])
     R.contract(F + "to_dict", prop="C18", types={"self": FSB}, returns=CFG,
                requires=["isinstance(self.config_path, str)", "isinstance(self.metadata_config_path, str)",
                          "implies(self._memory_cache is not None, self._memory_cache.memory_cache_bytes > 0)"],
@@ -122,6 +129,8 @@ def load(R):
                modifies=["self.*"])
 
     MSB = TEnt("MemoryStorageBackend")
+    R.contract("storage_memory:MemoryStorageBackend.__init__@config-only", prop="C18", inline_callees=["storage:StorageBackend.__init__"],
+               types={"self": MSB, "config": OPTCFG}, ensures=["self.read_only == EFF_RO(config, None)"], labels={"use_defaults": ["read_only"]}, modifies=["self.*"])
     R.contract("storage_memory:MemoryStorageBackend.__init__", prop="C18", inline_callees=["storage:StorageBackend.__init__"],
                types={"self": MSB, "config": OPTCFG, "read_only": TOpt(TBool)},
                ensures=["self.read_only == EFF_RO(config, read_only)", "self.storage_type == 'memory'", "len(self.mementos) == 0", "len(self.result) == 0", "len(self.metadata) == 0"],
